@@ -53,9 +53,59 @@ class Names:
         return pool[i % len(pool)] + ("" if i < len(pool) else str(i))
 
 
+class Script(list):
+    """Native enumeration of a decoder's input space: a selector vector that answers rd() from a script and records
+    how many alternatives each read had (used for conformance runs and known-finding searches, never under CrossHair)."""
+
+    def __init__(self, prefix=()):
+        super().__init__(prefix)
+        self.arity: list[int] = []
+
+    def ask(self, cur, n: int) -> int:
+        i = cur.pos
+        cur.pos += 1
+        while len(self) <= i:
+            self.append(0)
+        while len(self.arity) <= i:
+            self.arity.append(0)
+        self.arity[i] = n
+        if not (0 <= self[i] < n):
+            raise OutOfRange
+        return self[i]
+
+
+def all_vectors(decode, length: int, limit: int = 200000):
+    """Depth-first enumeration of every selector vector `decode(sel)` accepts (OutOfRange = rejected)."""
+    prefix: list[int] = []
+    count = 0
+    while True:
+        s = Script(prefix)
+        ok = True
+        try:
+            decode(s)
+        except OutOfRange:
+            ok = False
+        used = len(s.arity)
+        vec = list(s[:used])
+        if ok:
+            count += 1
+            yield vec + [0] * (length - used)
+            if count >= limit:
+                return
+        # advance: increment the last position that still has alternatives
+        i = used - 1
+        while i >= 0 and vec[i] + 1 >= s.arity[i]:
+            i -= 1
+        if i < 0:
+            return
+        prefix = vec[:i] + [vec[i] + 1]
+
+
 def rd(sel, cur, n: int) -> int:
     """Read one selector and return it as a CONCRETE int (the solver forks once per value here, so everything
     downstream of the decoder runs on concrete shape indices)."""
+    if isinstance(sel, Script):
+        return sel.ask(cur, n)
     v = sel[cur.pos]
     cur.pos += 1
     for i in range(n):
